@@ -33,6 +33,10 @@
 #include <dune/common/debugallocator.hh>
 #include <dune/common/debugalign.hh>
 
+#ifndef CONFIGS_INC
+#define CONFIGS_INC "configs.inc"
+#endif
+
 // ------------------------------------------------------------------ operator new recorder
 namespace rec {
   struct R { char* p; std::size_t size; std::size_t align; bool live; };
@@ -259,6 +263,19 @@ static void run_sys(const SysVT& v, const std::vector<Op>& ops, bool debug, unsi
   if (corrupt) emit("END!corrupt");
 }
 
+// ------------------------------------------------------------------ debugalign.hh: AlignedBase placement new check
+static int g_viol = 0;
+template<std::size_t A> static bool placement_violates(void* p) {
+  g_viol = 0;
+  Dune::ViolatedAlignmentHandler old = Dune::violatedAlignmentHandler();
+  Dune::violatedAlignmentHandler() = [](const char*, std::size_t, const void*) { ++g_viol; };
+  using AN = Dune::AlignedNumber<double, A>;
+  AN* q = new (p) AN(1.0);
+  (void)q;
+  Dune::violatedAlignmentHandler() = old;
+  return g_viol != 0;
+}
+
 // ------------------------------------------------------------------ dispatch
 static std::vector<Op> parse_ops(std::istringstream& is) {
   std::vector<Op> ops; std::string t;
@@ -274,6 +291,16 @@ static void run_case(const std::string& line) {
     emit(Dune::isAligned((const void*)(std::uintptr_t)p, (std::size_t)a) ? "1" : "0");
     return;
   }
+  if (kind == "alignedbase") {
+    unsigned long long a, off; is >> a >> off;
+    alignas(4096) static char buf[16384];
+    void* p = buf + off; bool v;
+    if (a == 16) v = placement_violates<16>(p); else if (a == 32) v = placement_violates<32>(p);
+    else if (a == 64) v = placement_violates<64>(p); else if (a == 128) v = placement_violates<128>(p);
+    else { emit("NO-SUCH-CONFIG"); return; }
+    emit(v ? "violated" : "placed");
+    return;
+  }
   if (kind == "pool" || kind == "pa") {
     unsigned long long sT, aT, s; is >> sT >> aT >> s;
     std::vector<Op> ops = parse_ops(is);
@@ -281,7 +308,7 @@ static void run_case(const std::string& line) {
 #define PA(ST, AT, S) if (kind == "pa" && sT == ST && aT == AT && s == S) { run_pool(vt_pa<Blob<ST, AT>, S>(), ops); return; }
 #define SYS(ST, AT)
 #define ALIGNED(ST, AT, AL)
-#include "configs.inc"
+#include CONFIGS_INC
 #undef POOL
 #undef PA
 #undef SYS
@@ -301,7 +328,7 @@ static void run_case(const std::string& line) {
                     if (kind == "debug" && sT == ST && aT == AT) { run_sys(vt_sys<Dune::DebugAllocator<Blob<ST, AT>>>(AT), ops, true, page); return; }
 #define ALIGNED(ST, AT, AL) if (kind == "aligned" && sT == ST && aT == AT && al == AL) { \
       using A = Dune::AlignedAllocator<Blob<ST, AT>, AL>; run_sys(vt_sys<A>((std::size_t)A::alignment), ops, false, 0); return; }
-#include "configs.inc"
+#include CONFIGS_INC
 #undef POOL
 #undef PA
 #undef SYS
